@@ -677,10 +677,16 @@ func c02History(r *RunCtx, run int) error {
 		pw, cw = 50, 11
 	}
 	chunk := PickOne(p, []int64{1, 3, 8})
+	if run == 2 { // a chain configured with chunks larger than the default 1024 bytes: honest chunks are then larger too
+		chunk = 2048
+	}
 	params := e.App.StorageKeeper.GetParams(e.Ctx)
 	params.ProofWindow, params.CheckWindow, params.ChunkSize = pw, cw, chunk
 	e.App.StorageKeeper.SetParams(e.Ctx, params)
 	nch := int64(1 + p.Intn(r.Scale(5, 9)))
+	if run == 2 {
+		nch = 2 + p.I64n(2)
+	}
 	size := chunk*nch - p.I64n(chunk)
 	if p.Chance(1, 4) {
 		size = chunk * nch // exactly full chunks
@@ -709,6 +715,17 @@ func c02History(r *RunCtx, run int) error {
 	}
 	if res := e.Run(&storagetypes.MsgPostFile{Creator: owner.String(), Merkle: f.root, FileSize: size, ProofType: 0, MaxProofs: int64(2 + p.Intn(2)), Note: "{}"}); res.Out != OutOk {
 		return fmt.Errorf("C02: PostFile: %s", res.Err)
+	}
+	// a retry of the post inside its own block, after a holder has already picked the file up: the replacement is a
+	// fresh file (the earlier provers and their records are gone), and the holder simply joins again afterwards —
+	// what must not happen is a file that lists a holder the chain holds no record for
+	if run == 3 || p.Chance(1, 4) {
+		if item, payload, err := f.honestProof(0); err == nil {
+			res := e.Run(&storagetypes.MsgPostProof{Creator: honest.String(), Item: item, HashList: payload, Merkle: f.root, Owner: owner.String(), Start: start, ToProve: 0})
+			r.Hist("setup", "proof before the retried post: "+res.Out)
+			res = e.Run(&storagetypes.MsgPostFile{Creator: owner.String(), Merkle: f.root, FileSize: size, ProofType: 0, MaxProofs: 3, Note: "{}"})
+			r.Hist("setup", "retried post in the same block: "+res.Out)
+		}
 	}
 	hh := &c02Hist{r: r, e: e, owner: owner.String(), f: f, start: start}
 	hh.log("PostFile", start, map[string]interface{}{"size": size, "proof_window": pw, "check_window": cw, "chunk_size": chunk})
